@@ -342,7 +342,8 @@ func attribute(prop, class string, op *Op, want, got model.Res, detail string) *
 			return violation("C19", "ttl-index-definition", "", detail)
 		}
 	case "C02":
-		if want.Err != "" || got.Err != "" {
+		if want.Err != "" || got.Err != "" || op.K == "s.txn" || op.K == "s.with" {
+			// (a transaction body in C02's workload is there for its failing calls)
 			return violation("C02", "failed-write-"+class, op.K, detail)
 		}
 	}
